@@ -20,12 +20,20 @@ let next_record c : chart =
   { c_title = title; c_description = description; c_issue = issue; c_type = typ; c_program = program;
     c_module = modul; c_counter = counter; c_depth = depth; c_error = err; c_version = version }
 
+(* long values are abbreviated in messages; the replay keeps the whole case line *)
+let abbrev (s : string) : string =
+  if String.length s <= 160 then s
+  else Printf.sprintf "%s...(%d bytes)" (String.sub s 0 60) (String.length s)
+let string_of_bytes_short b = abbrev (string_of_bytes b)
+let longest_line (text : n list) : int =
+  List.fold_left (fun m l -> max m (String.length l)) 0 (String.split_on_char '\n' (string_of_bytes text))
+
 let show_record (r : chart) =
   Printf.sprintf "{title=%S desc=%S issue=[%s] type=%S program=%S module=%S counter=%S depth=%s error=%s version=%S}"
-    (string_of_bytes r.c_title) (string_of_bytes r.c_description)
-    (String.concat ";" (List.map (fun b -> Printf.sprintf "%S" (string_of_bytes b)) r.c_issue))
-    (string_of_bytes r.c_type) (string_of_bytes r.c_program) (string_of_bytes r.c_module)
-    (string_of_bytes r.c_counter) (tok_of_z r.c_depth) (tok_of_n r.c_error) (string_of_bytes r.c_version)
+    (string_of_bytes_short r.c_title) (string_of_bytes_short r.c_description)
+    (String.concat ";" (List.map (fun b -> Printf.sprintf "%S" (string_of_bytes_short b)) r.c_issue))
+    (string_of_bytes_short r.c_type) (string_of_bytes_short r.c_program) (string_of_bytes_short r.c_module)
+    (string_of_bytes_short r.c_counter) (tok_of_z r.c_depth) (tok_of_n r.c_error) (string_of_bytes_short r.c_version)
 
 let next_style c : rstyle =
   let sep = next_bool c in
@@ -74,7 +82,7 @@ let n_of_z = function Z0 -> N0 | Zpos p -> Npos p | Zneg _ -> N0
 (* compares the model's parse with the implementation's; a panic is a property failure *)
 let compare_parse (m : presult) (i : impl_parse) (text : n list) =
   match i with
-  | IPanic -> prop "parse-panic" (Printf.sprintf "text=%S" (string_of_bytes text))
+  | IPanic -> prop "parse-panic" (Printf.sprintf "text=%S" (abbrev (string_of_bytes text)))
   | IErr (has, ln, code) ->
     (match m with
      | PErr (mln, e) ->
@@ -175,8 +183,9 @@ let handle kind c =
           | IErr (has, ln, _) -> PErr ((if has then Some (n_of_z ln) else None), EBadLine)
           | IPanic -> PErr (None, EBadLine)) in
       if not (roundtrip_ok rs observed) then
-        prop "parse-render" (Printf.sprintf "records=[%s] text=%S parsed=%s"
-                               (String.concat "; " (List.map show_record rs)) (string_of_bytes text) (show_impl_parse impl))
+        prop "parse-render" (Printf.sprintf "records=[%s] longest-line=%d text=%S parsed=%s"
+                               (String.concat "; " (List.map show_record rs)) (longest_line text)
+                               (abbrev (string_of_bytes text)) (show_impl_parse impl))
     end
   | "text" ->
     let text = next_bytes c in
